@@ -11,7 +11,7 @@ from harness.common import Check, import_lib
 
 IDS = {"std3": "http://json-schema.org/draft-03/schema", "std4": "http://json-schema.org/draft-04/schema",
        "std6": "http://json-schema.org/draft-06/schema", "std7": "http://json-schema.org/draft-07/schema",
-       "new1": "http://x.invalid/meta/new1", "new2": "urn:verif:new2", "new3": "http://x.invalid/meta/new3.json", "unknown": "http://x.invalid/no-such-metaschema",
+       "new1": "http://x.invalid/meta/new1", "new2": "http://y.invalid/meta/new2", "new3": "http://x.invalid/meta/new3.json", "unknown": "http://x.invalid/no-such-metaschema",
        "nonuri": "not a uri at all"}
 # (schema body, instance) pairs on which the drafts disagree
 PAIRS = [({"type": "integer"}, 1.0), ({"const": 1}, 2), ({"if": {"type": "integer"}, "then": {"minimum": 5}}, 1),
